@@ -77,6 +77,21 @@ func (c *Ctx) paths(rule string, f *ssa.Function, cfg px.Config) []*px.Path {
 		return nil
 	}
 	cfg.Prog = c.P.SSA
+	// Private helpers that did not exist when the rules were written (baseline_funcs_gen.go lists every
+	// function of the pinned tree) are analysed in place: extracting a few lines into a new unexported
+	// helper is a behaviour-preserving edit and must not change what a rule sees.
+	own := cfg.Inline
+	root := f
+	cfg.Inline = func(ci *px.CallInfo, d int) bool {
+		if own != nil && own(ci, d) {
+			return true
+		}
+		callee := ci.Static
+		if callee == nil || callee.Pkg == nil || root.Pkg == nil || callee.Pkg != root.Pkg || callee.Synthetic != "" || callee == root {
+			return false
+		}
+		return !baselineFuncs[callee.String()] && len(callee.Blocks) <= 40
+	}
 	ps, _, err := px.Run(cfg, f)
 	if err != nil {
 		c.R.Undecided(rule, f.String(), "paths enumerable", err.Error())
